@@ -521,7 +521,8 @@ static void dsp_thread(RunCtx& R, uint64_t seed) {
                 int n = 1 + rng.below(4);
                 for (int i = 0; i < n; ++i) {
                     unsigned v = 0x0300 + rng.below(4);
-                    t.MMIOWrite(0x214 + 4 * 14, (uint16_t)v);
+                    if (rng.chance(1, 3)) t.MMIOWrite(0x212 + 4 * 14, (uint16_t)(rng.below(2) << 15)); // vector_high, context switch
+                    else t.MMIOWrite(0x214 + 4 * 14, (uint16_t)v);                                   // vector_low
                     R.d.add(J("SetVec", "v", v));
                     spin(rng.below(3000));
                 }
@@ -631,7 +632,7 @@ int main(int argc, char** argv) {
         R.cfg.vec = m_vec;
         R.cfg.cbsend = rng.chance(1, 3);
         R.cfg.cbrecv = !rng.chance(1, 4);
-        R.cfg.nops = 5 + rng.below(8);
+        R.cfg.nops = 4 + rng.below(7);
         if (const char* w = std::getenv("CONC_WATCHDOG_S")) R.cfg.watchdog_s = std::atol(w);
         Teakra::UserConfig uc;
         Teakra::Teakra t(uc);
